@@ -26,7 +26,12 @@ PLayout(c) == [name |-> c.name, outline |-> [x |-> c.outline.x, y |-> c.outline.
                instances |-> MapS(PInst, c.insts),
                assignments |-> MapS(LAMBDA a : [net |-> a.net, at |-> PCross(a)], c.assigns),
                cuts |-> MapS(PCross, c.cuts)]
-PCell(c) == [name |-> c.name, layout |-> <<PLayout(c)>>]
+\* a cell may carry an ABSTRACT view only (view = "abs": name, outline, metal count; no instances): it is still a node of
+\* the dependency graph, and must be exported before the cells that instantiate it
+IsAbs(c) == "view" \in DOMAIN c /\ c.view = "abs"
+PAbstract(c) == [name |-> c.name, nports |-> 0, outline |-> [x |-> c.outline.x, y |-> c.outline.y, metals |-> c.metals]]
+PCell(c) == IF IsAbs(c) THEN [name |-> c.name, layout |-> <<>>, abstract |-> <<PAbstract(c)>>]
+            ELSE [name |-> c.name, layout |-> <<PLayout(c)>>, abstract |-> <<>>]
 
 Index(cells, n) == CHOOSE i \in 1..Len(cells) : cells[i].name = n
 DepsOf(cells) == [i \in 1..Len(cells) |-> MapS(LAMBDA x : Index(cells, x.cell), cells[i].insts)]
@@ -54,5 +59,5 @@ Breakages(p) ==
                    w \in {"no-loc", "no-place", "relative-place", "no-cell", "no-cell-target", "undefined-cell", "external-cell"} }
           \cup { [what |-> w, ci |-> ci, k |-> k] : k \in 1..Len(p.cells[ci].layout[1].assignments), w \in {"assign-no-at", "assign-no-track", "assign-no-cross"} }
           \cup { [what |-> w, ci |-> ci, k |-> k] : k \in 1..Len(p.cells[ci].layout[1].cuts), w \in {"cut-no-track", "cut-no-cross"} }
-          : ci \in 1..Len(p.cells) }
+          : ci \in { k \in 1..Len(p.cells) : p.cells[k].layout # <<>> } }
 =============================================================================
